@@ -6,6 +6,7 @@ import (
 	"fmt"
 	"go/types"
 	"sort"
+	"strconv"
 	"strings"
 
 	"golang.org/x/tools/go/ssa"
@@ -246,7 +247,19 @@ func runE5Row(p *Program, sp *Spec, c *Collector, r *E5Row) bool {
 			ev := &evaluator{e: env{}, missing: map[string]string{}, kinds: map[string]string{}}
 			ev.eval(got, "string")
 			if _, ok := ev.missing[term]; !ok {
-				c.Ob(r.Props, "E5.key-identity", key, Violated, fmt.Sprintf("%s: the key does not depend on %s at all, so two records that differ only there share one entry; key term: %s", r.What, fld, clip(got.String(), 200)), pos, false)
+				// not a base term of the evaluation: does the key mention the field at all (inside a formatting call the evaluator
+				// does not interpret)?
+				mentioned := false
+				got.walk(func(x *Sym) {
+					if x.String() == term {
+						mentioned = true
+					}
+				})
+				if mentioned {
+					c.Ob(r.Props, "E5.key-identity", key, Discharged, r.What+": the key is computed from "+fld+" (through a function the evaluator does not interpret)", pos, true)
+				} else {
+					c.Ob(r.Props, "E5.key-identity", key, Violated, fmt.Sprintf("%s: the key does not depend on %s at all, so two records that differ only there share one entry; key term: %s", r.What, fld, clip(got.String(), 200)), pos, false)
+				}
 				continue
 			}
 			changed := false
@@ -427,18 +440,35 @@ func runE5Row(p *Program, sp *Spec, c *Collector, r *E5Row) bool {
 		}
 		return ok
 	case "callguard", "callarg":
-		// find the call site(s) of callee in fn
+		// find the call site(s) of callee in fn. The callee may list alternatives "f:1|g:0" (function key : argument index): the
+		// first alternative that is called at all is the one the record passes through (robust to helper extraction / inlining)
 		var sites []*ssa.Call
-		for _, b := range fn.Blocks {
-			for _, in := range b.Instrs {
-				if call, ok := in.(*ssa.Call); ok {
-					if cal := call.Call.StaticCallee(); cal != nil && (p.FuncKey(cal) == r.Callee || fullFuncName(cal) == r.Callee) {
-						sites = append(sites, call)
+		firstAlt := r.Callee
+		for ai, alt := range strings.Split(r.Callee, "|") {
+			name, argIdx := alt, r.Arg
+			if i := strings.LastIndex(alt, ":"); i > 0 {
+				if n, err := strconv.Atoi(alt[i+1:]); err == nil {
+					name, argIdx = alt[:i], n
+				}
+			}
+			if ai == 0 {
+				firstAlt = name
+			}
+			for _, b := range fn.Blocks {
+				for _, in := range b.Instrs {
+					if call, ok := in.(*ssa.Call); ok {
+						if cal := call.Call.StaticCallee(); cal != nil && (p.FuncKey(cal) == name || fullFuncName(cal) == name) {
+							sites = append(sites, call)
+						}
 					}
 				}
 			}
+			if len(sites) > 0 {
+				r.Arg = argIdx
+				break
+			}
 		}
-		key := e5Key(r, "-> "+shortFn(r.Callee))
+		key := e5Key(r, "-> "+shortFn(firstAlt))
 		if r.Kind == "callarg" {
 			key += fmt.Sprintf(" arg%d", r.Arg)
 			if r.Field != "" {
